@@ -148,7 +148,7 @@ def main():
     if a.replay:
         common.do_replay(PID, a.replay)
     t0 = time.time()
-    merged = lib.merge(lib.run_sharded('c13', 'shard', a.tier, a.seed))
+    merged = lib.merge(lib.run_pool('c13', a.tier, a.seed))
     code = lib.finish(
         PID, a.tier, a.seed, 'other', merged, t0,
         rule='case = (mode in equal / equal_symmetric / allclose(rtol,atol,equal_nan) / equal_default / allclose_default / clone / redense / repattern / reflexive / MultiTensor.allclose, '
